@@ -1,9 +1,9 @@
 (* Properties/C16.v — public views and default exports never contain private key material.
    Only statements closed by [exact lemma], their non-vacuity examples, refutation witnesses for the
    defective variants, and Print Assumptions. *)
-From Coq Require Import List String Bool.
+From Coq Require Import List String Bool ZArith.
 From Verif Require Import Model.PublicView Gen.GenFields Proofs.PublicViewCore Proofs.PublicView Proofs.PublicViewWallet
-  Glue.FieldsGlue.
+  Proofs.PublicViewArgs Glue.FieldsGlue.
 Import ListNotations.
 Open Scope string_scope.
 
@@ -67,6 +67,61 @@ Theorem wallet_default_exports_clean : forall cfg h o lab v,
   In (lab, v) (wal_exports o (wal_run h (wal_init cfg))) -> v <> VSec.
 Proof. exact wallet_default_exports_clean_thm. Qed.
 
+(* --- view entry points called with ARBITRARY arguments ---------------------------------------------------------
+   histories may contain HDKey.public_master(args) / public_master_multisig(args) / wif_public(args) / wif(args) with any
+   argument values; a view is taken by public() or by public_master / public_master_multisig with arguments that do not
+   ask for private output (as_private / include_private / is_private absent or definitely false) *)
+Theorem xpublic_view_clean : forall hd kd h1 o h2 x,
+  xview o = true -> snd (xstep o (xrun h1 (init hd kd))) = true ->
+  is_private key_class x = true -> blank (kf (xpublic_view hd kd h1 o h2) x) = true.
+Proof. exact xpublic_view_clean_thm. Qed.
+
+Theorem xpublic_view_no_secret : forall hd kd h1 o h2 x,
+  xview o = true -> snd (xstep o (xrun h1 (init hd kd))) = true ->
+  kf (xpublic_view hd kd h1 o h2) x <> VSec.
+Proof. exact xpublic_view_no_secret_thm. Qed.
+
+(* HDKey.public_master for ALL values of account_id, purpose, multisig, witness_type (and as_private false / None / 0 /
+   absent): every result the regenerated return paths allow, and everything a later history makes of it *)
+Theorem public_master_args_clean : forall hd kd h a r h2 x,
+  no_private_request a = true ->
+  In r (hd_public_master a (xrun h (init hd kd))) -> kf (xrun h2 (fst r)) x <> VSec.
+Proof. exact public_master_args_clean_thm. Qed.
+
+(* HDKey.public_master_multisig for ALL argument values: its arguments reach public_master through the regenerated
+   keyword -> argument mapping of the forwarding call *)
+Theorem public_master_multisig_clean : forall hd kd h a r h2 x,
+  no_private_request a = true ->
+  In r (hd_public_master_multisig a (xrun h (init hd kd))) -> kf (xrun h2 (fst r)) x <> VSec.
+Proof. exact public_master_multisig_clean_thm. Qed.
+
+(* HDKey.wif_public(prefix, witness_type, multisig) of any key, ALL argument values *)
+Theorem wif_public_args_clean : forall hd kd h a lab v,
+  In (lab, v) (xexports (XWifPublic a) (xrun h (init hd kd))) -> v <> VSec.
+Proof. exact wif_public_args_clean_thm. Qed.
+
+(* HDKey.wif(is_private, child_index, prefix, witness_type, multisig) of any key when is_private is absent or false *)
+Theorem hd_wif_args_clean : forall hd kd h a lab v,
+  no_private_request a = true -> In (lab, v) (xexports (XHdWif a) (xrun h (init hd kd))) -> v <> VSec.
+Proof. exact hd_wif_args_clean_thm. Qed.
+
+Theorem xpublic_view_exports_clean : forall hd kd h1 o h2 o2 lab v,
+  xview o = true -> snd (xstep o (xrun h1 (init hd kd))) = true ->
+  In (lab, v) (xexports o2 (xpublic_view hd kd h1 o h2)) -> v <> VSec.
+Proof. exact xpublic_view_exports_clean_thm. Qed.
+
+Theorem xdefault_exports_clean : forall hd kd h o lab v,
+  default_export o = true -> In (lab, v) (exports o (xrun h (init hd kd))) -> v <> VSec.
+Proof. exact xdefault_exports_clean_thm. Qed.
+
+(* Wallet.public_master(account_id, name, as_private, witness_type, network) for ALL argument values *)
+Theorem wallet_public_master_args_clean : forall cfg h a v h2 x,
+  no_private_request a = true ->
+  In v (wallet_public_master_args (wal_run h (wal_init cfg)) a) ->
+  (is_private wk_class x = true -> blank (kf (wrun h2 v) x) = true) /\
+  (is_handle wk_class x = false -> kf (wrun h2 v) x <> VSec).
+Proof. exact wallet_public_master_args_clean_thm. Qed.
+
 (* --- database and wallet-level exports --- *)
 Theorem private_columns_encrypted : forall c, In c private_write_columns -> In c dbkey_encrypted_columns.
 Proof. exact private_columns_encrypted_thm. Qed.
@@ -123,14 +178,41 @@ Proof.
   exact (conj dbkey_writes_glue (conj (proj1 dbkey_encrypted_glue) (conj (proj2 wallet_as_dict_glue) bind_condition_glue))).
 Qed.
 
+(* (strengthened: also the keyword -> argument mapping of every forwarding call inside a view entry point, with
+   positional arguments resolved to the callee's parameter names, and the bodies of the helpers that only forward) *)
 Theorem wallet_methods_glue :
   (GenFields.wallet_public_master_paths = PublicView.wallet_public_master_paths /\
    GenFields.wallet_wif_paths = PublicView.wallet_wif_paths) /\
   (GenFields.hdkey_public_master_paths = PublicView.hdkey_public_master_paths /\
    GenFields.walletkey_key_paths = PublicView.walletkey_key_paths /\
    GenFields.as_json_paths = PublicView.as_json_paths) /\
-  GenFields.export_signatures = PublicView.export_signatures.
-Proof. exact (conj wallet_paths_glue (conj method_bodies_glue export_signatures_glue)). Qed.
+  GenFields.export_signatures = PublicView.export_signatures /\
+  (GenFields.call_forwards = PublicView.call_forwards /\
+   GenFields.hdkey_public_master_multisig_paths = PublicView.hdkey_public_master_multisig_paths /\
+   GenFields.hdkey_wif_public_paths = PublicView.hdkey_wif_public_paths /\
+   GenFields.hdkey_wif_paths = PublicView.hdkey_wif_paths) /\
+  (find_forward GenFields.call_forwards "HDKey.public_master_multisig" "self.public_master" = Some (snd (snd fw_pmm)) /\
+   find_forward GenFields.call_forwards "HDKey.wif_public" "self.wif" = Some (snd (snd fw_wif_public))).
+Proof.
+  exact (conj wallet_paths_glue (conj method_bodies_glue (conj export_signatures_glue
+           (conj call_forwards_glue interpreted_forwards_glue)))).
+Qed.
+
+(* every function whose NAME presents its result as public is an entry point the model knows (or is listed as not
+   being a view of a private key); the parameter lists of all entry points are the frozen ones; every parameter name
+   is reviewed (asks for private output / plain); no entry point asks for private output by default *)
+Theorem view_entry_points_glue :
+  (GenFields.public_named_defs = PublicView.public_named_defs /\
+   forallb (fun q => mem q (map fst PublicView.entry_params) || mem q PublicView.public_named_other)
+           GenFields.public_named_defs = true) /\
+  (GenFields.entry_params = PublicView.entry_params /\ GenFields.entry_properties = PublicView.entry_properties) /\
+  forallb (fun mp => forallb (fun pd => mem (fst pd) asks_private_params || mem (fst pd) reviewed_plain_params) (snd mp))
+          GenFields.entry_params = true /\
+  forallb (fun mp => forallb (fun pd => negb (mem (fst pd) asks_private_params) || is_tf (a_truth (default_val (snd pd))))
+                             (snd mp)) GenFields.entry_params = true.
+Proof.
+  exact (conj public_named_defs_glue (conj entry_params_glue (conj private_param_names_reviewed defaults_do_not_ask_private))).
+Qed.
 
 (* --- non-vacuity: the histories the theorems talk about really move secrets around --- *)
 Example wif_fills_the_cache_and_public_clears_it :
@@ -219,6 +301,81 @@ Example wallet_wif_of_main_key_refuted :
                                 (wal_init (CSimple WcMaster)) false).
 Proof. vm_compute. tauto. Qed.
 
+(* --- arguments: non-vacuity and the refutation witnesses of mis-forwarded keywords --- *)
+(* the as_private argument really decides: True hands out the private account key, segwit / account 1 do not *)
+Example public_master_arguments_decide :
+  map (fun r => kf (fst r) "secret") (hd_public_master [("as_private", ABool true)] (init true (KPriv true))) = [VSec] /\
+  map (fun r => kf (fst r) "secret")
+      (hd_public_master [("witness_type", AStr "segwit"); ("account_id", AInt 1%Z); ("multisig", ABool true); ("purpose", AInt 48%Z)]
+                        (init true (KPriv true))) = [VNone] /\
+  map (fun r => kf (fst r) "secret")
+      (hd_public_master_multisig [("witness_type", AStr "p2sh-segwit"); ("account_id", AInt 7%Z)] (init true (KPriv true))) = [VNone] /\
+  map (fun r => kf (fst r) "secret")
+      (hd_public_master_multisig [("as_private", AInt 1%Z)] (init true (KPriv true))) = [VSec] /\
+  no_private_request [("witness_type", AStr "segwit"); ("as_private", ANone)] = true /\
+  no_private_request [("as_private", AStr "segwit")] = false /\ no_private_request [("is_private", ATop)] = false.
+Proof. vm_compute. repeat split. Qed.
+
+(* the hypotheses of the view theorems are satisfiable: the call returns, and it is a view *)
+Example public_master_multisig_view_is_taken :
+  let o := XPmm [("witness_type", AStr "segwit"); ("account_id", AInt 1%Z); ("as_private", ANone)] in
+  let k := xrun [XOp OWif; XOp (OHdWif true); XHdWif [("is_private", ABool true)]] (init true (KPriv true)) in
+  xview o = true /\ snd (xstep o k) = true /\ kf k "_wif" = VSec /\ kf (fst (xstep o k)) "_wif" = VNone /\
+  snd (xstep o (fst (xstep o k))) = false.
+Proof. vm_compute. repeat split. Qed.
+
+Example hd_wif_arguments_decide :
+  In ("xkey", VSec) (xexports (XHdWif [("is_private", ABool true)]) (init true (KPriv true))) /\
+  xexports (XHdWif [("witness_type", AStr "segwit"); ("multisig", ABool true)]) (init true (KPriv true)) = [("xkey", VPub)] /\
+  xexports (XWifPublic [("witness_type", AStr "segwit"); ("multisig", ABool true)]) (init true (KPriv true)) = [("xkey", VPub)].
+Proof. vm_compute. repeat split; tauto. Qed.
+
+(* public_master_multisig handing witness_type to the as_private parameter of public_master (a keyword copy slip):
+   whenever a witness type is given, the "public" cosigner account key is the private one; without it nothing shows *)
+Example public_master_multisig_misforward_refuted :
+  let fw := [ ("HDKey.public_master_multisig",
+               ("self.public_master", [("account_id", "account_id"); ("purpose", "purpose"); ("multisig", "True");
+                                       ("witness_type", "witness_type"); ("as_private", "witness_type")])) ] in
+  let call a := hpmm_results entry_params fw hdkey_public_master_multisig_paths hdkey_public_master_paths
+                             (call_env entry_params "HDKey.public_master_multisig" a) (init true (KPriv true)) in
+  no_private_request [("witness_type", AStr "segwit")] = true /\
+  map (fun r => (kf (fst r) "secret", kf (fst r) "private_byte")) (call [("witness_type", AStr "segwit")]) = [(VSec, VSec)] /\
+  map (fun r => kf (fst r) "secret") (call [("witness_type", AStr "legacy"); ("account_id", AInt 1%Z)]) = [VSec] /\
+  map (fun r => kf (fst r) "secret") (call []) = [VNone] /\
+  map (fun r => kf (fst r) "secret") (call [("witness_type", ANone)]) = [VNone].
+Proof. vm_compute. repeat split. Qed.
+
+(* a forwarding call the table does not contain, or an argument expression the model cannot read, is a request for
+   the private key (fail closed) *)
+Example public_master_multisig_unknown_forward_refuted :
+  let a := [("witness_type", AStr "segwit")] in
+  map (fun r => kf (fst r) "secret")
+      (hpmm_results entry_params [] hdkey_public_master_multisig_paths hdkey_public_master_paths
+                    (call_env entry_params "HDKey.public_master_multisig" a) (init true (KPriv true))) = [VSec; VNone] /\
+  map (fun r => kf (fst r) "secret")
+      (hpmm_results entry_params [ ("HDKey.public_master_multisig",
+                                    ("self.public_master", [("as_private", "bool(witness_type)")])) ]
+                    hdkey_public_master_multisig_paths hdkey_public_master_paths
+                    (call_env entry_params "HDKey.public_master_multisig" a) (init true (KPriv true))) = [VSec; VNone].
+Proof. vm_compute. repeat split. Qed.
+
+(* wif_public forwarding one of its own arguments as is_private *)
+Example wif_public_misforward_refuted :
+  let fw := [ ("HDKey.wif_public",
+               ("self.wif", [("is_private", "multisig"); ("prefix", "prefix"); ("witness_type", "witness_type"); ("multisig", "multisig")])) ] in
+  In ("xkey", VSec)
+     (map (fun le => (fst le, eval (snd le) (init true (KPriv true))))
+          (wif_public_exprs entry_params fw hdkey_wif_public_paths [("multisig", ABool true)] (init true (KPriv true)))).
+Proof. vm_compute. tauto. Qed.
+
+(* Wallet.public_master(as_private=...) with arguments: only the truth value of as_private matters *)
+Example wallet_public_master_arguments_decide :
+  let w := wal_init (CSimple WcMaster) in
+  map (fun v => kf v "key_private") (wallet_public_master_args w [("as_private", ABool true); ("account_id", AInt 1%Z)]) = [VSec] /\
+  map (fun v => kf v "key_private")
+      (wallet_public_master_args w [("account_id", AInt 1%Z); ("witness_type", AStr "legacy"); ("network", AStr "litecoin")]) = [VNone].
+Proof. vm_compute. split; reflexivity. Qed.
+
 Print Assumptions public_view_clean.
 Print Assumptions public_view_no_secret.
 Print Assumptions classification_sound.
@@ -239,3 +396,13 @@ Print Assumptions wallet_public_view_clean.
 Print Assumptions wallet_returns_clean.
 Print Assumptions wallet_default_exports_clean.
 Print Assumptions wallet_methods_glue.
+Print Assumptions xpublic_view_clean.
+Print Assumptions xpublic_view_no_secret.
+Print Assumptions public_master_args_clean.
+Print Assumptions public_master_multisig_clean.
+Print Assumptions wif_public_args_clean.
+Print Assumptions hd_wif_args_clean.
+Print Assumptions xpublic_view_exports_clean.
+Print Assumptions xdefault_exports_clean.
+Print Assumptions wallet_public_master_args_clean.
+Print Assumptions view_entry_points_glue.
